@@ -171,11 +171,14 @@ let run (args : (string * string) list) : string =
                                    | None -> true)))
            | None -> add "offsets" "FAIL(decode-error)"));
        (* Elias-Fano and degree-cumulative entries read back through the library *)
-       (match get_opt args "ef" with
-        | Some e when String.length e > 0 && (e.[0] >= '0' && e.[0] <= '9') ->
-          add "ef" (ok (List.map n_of_int (ints_of_string e) = sums))
-        | Some e -> add "ef" ("FAIL(" ^ e ^ ")")
-        | None -> ());
+       (* "ef": built from the .offsets file; "ef2": built by scanning the graph when there
+          is no .offsets file *)
+       List.iter (fun key ->
+         match get_opt args key with
+         | Some e when String.length e > 0 && (e.[0] >= '0' && e.[0] <= '9') ->
+           add key (ok (List.map n_of_int (ints_of_string e) = sums))
+         | Some e -> add key ("FAIL(" ^ e ^ ")")
+         | None -> ()) ["ef"; "ef2"];
        (match get_opt args "dcf" with
         | Some e when String.length e > 0 && (e.[0] >= '0' && e.[0] <= '9') ->
           let degs = List.map (fun l -> n_of_int (List.length l)) g in
